@@ -17,6 +17,24 @@ and three layers of independent oracles that state the property on the real code
   L2 the same on what the real generators emit per scope (python name, alias=, wire name);
   L3 whole generated packages for pairs of names in each scope: generation fails with an error,
      or the package imports and both names are usable through the real pydantic models / client.
+
+  S  history-freedom: runs of process_name calls with different flags in ONE fresh interpreter (the way
+     a generation run interleaves the scopes) must answer every call as if it were the only one;
+     compared with the model (a run is a map: `runCalls`) and judged against single-flag reference runs.
+
+Two further name scopes (model `Ariadne.NameScopes`, lean/AriadneModel/Model/NameScopes.lean):
+
+  M  the scope of a client METHOD: the real ArgumentsGenerator + ClientGenerator.add_method /
+     get_variable_names on exhaustive small variable lists over a pool that stresses
+     self/kwargs/query/variables/response/data/gql/<result class> with case and underscore affixes
+     (both snake settings, sync/async/subscription); the emitted `def` is compiled by CPython and
+     CALLED against a fake base client with one marked value per variable; compared with the driver
+     (parameters, helper locals, compiles?, what is sent / returned / raised) and judged by an
+     independent oracle (the operation text and every caller's value under its GraphQL name arrive).
+  K  the scope of a result CLASS fed by several selection sources (own fields, aliases of one schema
+     field, inline fragments, unpacked spreads, fragments as base classes): real ResultTypesGenerator
+     rows vs the driver, and whole packages whose model must keep a distinct value under every
+     response key GraphQL collects.
 """
 from __future__ import annotations
 
@@ -71,6 +89,15 @@ def fingerprint_items() -> List[Tuple[str, Optional[str]]]:
         (GEN + "package.py", "PackageGenerator.add_operation"),
         (GEN + "package.py", "PackageGenerator._validate_unique_file_names"),
         (GEN + "client.py", "ClientGenerator.add_method"),
+        (GEN + "client.py", "ClientGenerator.get_variable_names"),
+        (GEN + "client.py", "ClientGenerator._generate_operation_str_assign"),
+        (GEN + "client.py", "ClientGenerator._generate_variables_assign"),
+        (GEN + "client.py", "ClientGenerator._generate_execute_call"),
+        (GEN + "client.py", "ClientGenerator._generate_async_generator_loop"),
+        (GEN + "result_types.py", "ResultTypesGenerator._resolve_selection_set"),
+        (GEN + "result_types.py", "ResultTypesGenerator._get_inline_fragment_root_type"),
+        (GEN + "result_types.py", "ResultTypesGenerator._unpack_fragment"),
+        (GEN + "result_types.py", "ResultTypesGenerator._parse_type_definition"),
     ]
 
 
@@ -201,6 +228,43 @@ class Twin:
             return None
         t = self.single(SCOPE_CFG[scope](snake), n)
         return "trigDigitLead" if t[0] else "trigTrimToKeyword" if t[1] else None
+
+    # ---- method scope (Model/NameScopes.lean) ----
+    def var_py(self, snake: bool, n: str) -> str:
+        """process_name with the flags of arguments.py (no trimming, no reserved-name suffix)"""
+        p = m_snake(n) if snake else n
+        if p in self.kw:
+            p += "_"
+        if m_all_underscore(n) and p == "":
+            p = self.fallback
+        return p
+
+    def method_triggers(self, snake: bool, ret: str, names: Sequence[str]) -> List[bool]:
+        py = [self.var_py(snake, n) for n in names]
+        return ["self" in py, "kwargs" in py, "query" in py and "_query" in py, "gql" in py or ret in py]
+
+    def method_region(self, snake: bool, ret: str, names: Sequence[str], sig: str) -> Optional[str]:
+        """the finding region a failing method lies in, given HOW it failed"""
+        t_self, t_kw, t_cap, t_glob = self.method_triggers(snake, ret, names)
+        if sig == "broken-output":
+            if t_self:
+                return "trigSelfParam"
+            if t_kw:
+                return "trigKwargsParam"
+            for n in names:
+                t1 = self.scope_single_trigger("variable", snake, n)
+                if t1:
+                    return t1
+            for a, b in itertools.combinations(names, 2):
+                t2 = self.scope_pair_trigger("variable", snake, a, b)
+                if t2:
+                    return t2
+            return None
+        if sig == "caller-value-lost":
+            return "trigQueryCapture" if t_cap else None
+        if sig == "method-unusable":
+            return "trigGlobalShadow" if t_glob else None
+        return None
 
 
 def twin() -> Twin:
@@ -912,6 +976,686 @@ def random_package_cases(rng: Any, names: Sequence[str], count: int) -> List[Tup
 
 
 # --------------------------------------------------------------------------------------------
+# M: the scope of a client method (real ArgumentsGenerator + ClientGenerator.add_method, compiled
+#    by CPython and called against a fake base client)
+# --------------------------------------------------------------------------------------------
+
+METHOD_KINDS = ["sync", "async", "subscription"]
+METHOD_RET = "Q"  # the result class of the operation `Q` (str_to_pascal_case of the operation name)
+METHOD_OP_TEXT = "OPTEXT"
+METHOD_SIGS = ("broken-output", "caller-value-lost", "method-unusable")
+
+
+def method_pool(full: bool) -> List[str]:
+    """names that stress the fixed names of a method: its own parameters, the helper locals in
+    both spellings, the two module globals the body reads - with case and underscore affixes"""
+    out: List[str] = []
+    for b in ["self", "kwargs", "query", "gql", METHOD_RET]:
+        other_case = b.capitalize() if b.islower() else b.lower()
+        out += [b, "_" + b, other_case, b + "_"]
+        if full:
+            out += [b.upper() if b.islower() else "_" + other_case, "__" + b, "_" + b + "_"]
+    for b in ["variables", "response", "data"]:
+        out += [b, "_" + b]
+        if full:
+            out += [b.capitalize(), b + "_"]
+    out += ["x", "fooBar", "foo_bar"]
+    seen: List[str] = []
+    for n in out:
+        if n not in seen and GNAME_RE.match(n):
+            seen.append(n)
+    return seen
+
+
+def method_cases(rng: Any, full: bool, triples: int) -> List[Dict[str, Any]]:
+    """EVERY variable list of length 1 and 2 over the pool (ordered, distinct names; the default
+    patterns that change the parameter order), both snake settings, the three method kinds; plus
+    seeded random lists of length 3-4"""
+    pool = method_pool(full)
+    lists: List[List[List[Any]]] = [[]]
+    for a in pool:
+        lists += [[[a, False]], [[a, True]]]
+    for a in pool:
+        for b in pool:
+            if a != b:
+                lists += [[[a, False], [b, False]], [[a, True], [b, False]], [[a, False], [b, True]]]
+    for _ in range(triples):
+        k = rng.choice([3, 3, 4])
+        names = rng.sample(pool, k)
+        lists.append([[n, rng.random() < 0.5] for n in names])
+    return [{"level": "method", "snake": sn, "kind": kind, "vars": vs}
+            for vs in lists for sn in (False, True) for kind in METHOD_KINDS]
+
+
+class _Arg:
+    def __init__(self, i: int) -> None:
+        self.i = i
+
+
+class _Resp:
+    def __init__(self, q: Any, v: Any) -> None:
+        self.q, self.v = q, v
+
+
+class _Data:
+    def __init__(self, r: Any) -> None:
+        self.r = r
+
+
+class _Parsed:
+    def __init__(self, d: Any) -> None:
+        self.d = d
+
+
+class _FakeBase:
+    """what a generated method needs of its base client; records what it is handed"""
+
+    def __init__(self, is_async: bool) -> None:
+        self.sent: Optional[Dict[str, Any]] = None
+        if is_async:
+            async def execute(query: Any = None, operation_name: Any = None, variables: Any = None, **kwargs: Any) -> Any:
+                self.sent = {"query": query, "operation_name": operation_name, "variables": variables, "kwargs": kwargs}
+                return _Resp(query, variables)
+        else:
+            def execute(query: Any = None, operation_name: Any = None, variables: Any = None, **kwargs: Any) -> Any:  # type: ignore[misc]
+                self.sent = {"query": query, "operation_name": operation_name, "variables": variables, "kwargs": kwargs}
+                return _Resp(query, variables)
+        self.execute = execute
+
+    async def execute_ws(self, query: Any = None, operation_name: Any = None, variables: Any = None, **kwargs: Any) -> Any:
+        self.sent = {"query": query, "operation_name": operation_name, "variables": variables, "kwargs": kwargs}
+        yield _Data(_Resp(query, variables))
+
+    def get_data(self, r: Any) -> Any:
+        return _Data(r)
+
+
+def _enc_val(v: Any, fake: Any) -> Any:
+    if isinstance(v, _Arg):
+        return {"arg": v.i}
+    if v is fake:
+        return "self"
+    if isinstance(v, str) and v == METHOD_OP_TEXT + "\n":
+        return "text"
+    if isinstance(v, dict):
+        return {"dict": [[k, _enc_val(x, fake)] for k, x in v.items()]}
+    if isinstance(v, _Resp):
+        return {"resp": [_enc_val(v.q, fake), _enc_val(v.v, fake)]}
+    if isinstance(v, _Data):
+        return {"data": _enc_val(v.r, fake)}
+    if isinstance(v, _Parsed):
+        return {"parsed": _enc_val(v.d, fake)}
+    return {"other": repr(v)[:80]}
+
+
+def _drive(awaitable: Any) -> Any:
+    """run a coroutine that never really suspends (the fake base client awaits nothing)"""
+    try:
+        awaitable.send(None)
+    except StopIteration as e:
+        return e.value
+    raise RuntimeError("the generated method suspended on something that is not the fake base client")
+
+
+_METHOD_SCHEMA: Dict[str, Any] = {}
+
+
+def observe_method(case: Dict[str, Any]) -> Dict[str, Any]:
+    """CHILD: emit the method with the real generators, compile it, call it with one marked value per variable."""
+    import typing
+
+    try:
+        from graphql import build_ast_schema, parse
+
+        from ariadne_codegen.client_generators.arguments import ArgumentsGenerator
+        from ariadne_codegen.client_generators.client import ClientGenerator
+        from ariadne_codegen.codegen import generate_import_from
+
+        snake, kind, vars_ = case["snake"], case["kind"], case["vars"]
+        schema = _METHOD_SCHEMA.get("s")
+        if schema is None:  # the generators only read it
+            schema = _METHOD_SCHEMA["s"] = build_ast_schema(parse("type Query { f: Int } type Subscription { f: Int }"))
+        optype = "subscription" if kind == "subscription" else "query"
+        vd = ", ".join(f"${n}: Int" + ("" if d else "!") for n, d in vars_)
+        op = parse(f"{optype} {METHOD_RET}" + (f"({vd})" if vd else "") + " { f }").definitions[0]
+        ag = ArgumentsGenerator(schema=schema, convert_to_snake_case=snake)
+        cg = ClientGenerator(base_client_import=generate_import_from(["AsyncBaseClient"], "async_base_client", 1), arguments_generator=ag)
+        try:
+            cg.add_method(op, name="m", return_type=METHOD_RET, return_type_module="q", operation_str=METHOD_OP_TEXT, async_=(kind != "sync"))
+        except (AttributeError, ImportError, TypeError):
+            raise
+        except Exception as e:  # noqa: BLE001 - "generation fails with an error"
+            return {"raised": type(e).__name__, "msg": str(e)[:200]}
+        m = cg._class_def.body[-1]
+        params = [a.arg for a in m.args.args]
+        kwarg = m.args.kwarg.arg if m.args.kwarg else None
+        body = m.body
+        loc: Dict[str, Any] = {"q": body[0].targets[0].id, "v": body[1].target.id}
+        if kind == "subscription":
+            loc["d"] = body[2].target.id
+        else:
+            loc["r"] = body[2].targets[0].id
+            loc["d"] = body[3].targets[0].id
+        src = ast.unparse(ast.fix_missing_locations(ast.Module(body=[m], type_ignores=[])))
+    except (AttributeError, ImportError, TypeError, IndexError, KeyError) as e:
+        return {"observer": f"{type(e).__name__}: {e}"[:300]}
+    out: Dict[str, Any] = {"params": params, "kwarg": kwarg, "locals": loc, "src": src}
+    try:
+        code = compile(src, "<generated method>", "exec")
+    except SyntaxError as e:
+        out["compiles"] = False
+        out["outcome"] = {"err": "SyntaxError", "msg": str(e.msg)}
+        return out
+    out["compiles"] = True
+
+    class Ret:
+        @staticmethod
+        def model_validate(d: Any) -> Any:
+            return _Parsed(d)
+
+    g: Dict[str, Any] = {"gql": (lambda q: q), METHOD_RET: Ret, "UNSET": object(), "UnsetType": type(None)}
+    for nm in ("Dict", "Any", "Optional", "Union", "List", "AsyncIterator"):
+        g[nm] = getattr(typing, nm)
+    exec(code, g)
+    fn = g["m"]
+    fake = _FakeBase(is_async=(kind != "sync"))
+    # the caller passes one value per variable POSITIONALLY: required variables first, then the optional
+    # ones, each group in document order (the documented signature convention)
+    order = [i for i, (_, d) in enumerate(vars_) if not d] + [i for i, (_, d) in enumerate(vars_) if d]
+    args = [_Arg(i) for i in order]
+    try:
+        if kind == "sync":
+            result = fn(fake, *args)
+        elif kind == "async":
+            result = _drive(fn(fake, *args))
+        else:
+            result = _drive(fn(fake, *args).__anext__())
+        out["outcome"] = {"query": _enc_val(fake.sent["query"], fake) if fake.sent else None,
+                          "variables": _enc_val(fake.sent["variables"], fake) if fake.sent else None,
+                          "result": _enc_val(result, fake)}
+    except Exception as e:  # noqa: BLE001 - what the caller of the generated method sees
+        cls = "NameError" if isinstance(e, NameError) else type(e).__name__
+        out["outcome"] = {"err": cls, "msg": str(e)[:160]}
+    if fake.sent is not None:
+        out["sent"] = {"query": _enc_val(fake.sent["query"], fake), "variables": _enc_val(fake.sent["variables"], fake),
+                       "operation_name": fake.sent["operation_name"]}
+    return out
+
+
+def method_batch(cases: List[Dict[str, Any]]) -> List[Dict[str, Any]]:
+    return [observe_method(c) for c in cases]
+
+
+def method_verdict(case: Dict[str, Any], obs: Dict[str, Any]) -> Optional[Tuple[str, str]]:
+    """the property, on what the real method did - stated without the Lean model:
+    generation refused, or the def compiles AND a call hands the base client the operation text and every
+    caller's value under its GraphQL name AND returns the parsed data"""
+    if "raised" in obs:
+        return None
+    oc = obs.get("outcome", {})
+    if oc.get("err") == "SyntaxError":
+        return "broken-output", f"the emitted method does not compile ({oc.get('msg')}): {obs.get('src', '').splitlines()[0][:200]}"
+    want_vars = {"dict": [[n, {"arg": i}] for i, (n, _) in enumerate(case["vars"])]}
+    sent = obs.get("sent")
+    if sent is not None and (sent["variables"] != want_vars or sent["query"] != "text"):
+        return "caller-value-lost", f"sent query={json.dumps(sent['query'])} variables={json.dumps(sent['variables'])}, wanted the operation text and {json.dumps(want_vars)}"
+    if "err" in oc:
+        return "method-unusable", f"calling the method raises {oc['err']}: {oc.get('msg')}"
+    if sent is None or sent.get("operation_name") != METHOD_RET:
+        return "caller-value-lost", f"nothing / the wrong operation was handed to the base client: {sent}"
+    if oc.get("result") != {"parsed": {"data": {"resp": ["text", want_vars]}}}:
+        return "caller-value-lost", f"returned {json.dumps(oc.get('result'))[:300]}"
+    return None
+
+
+def _method_line(case: Dict[str, Any]) -> Dict[str, Any]:
+    return {"op": "method", "snake": case["snake"], "sub": case["kind"] == "subscription", "ret": METHOD_RET, "vars": case["vars"]}
+
+
+def judge_methods(ctx: Ctx, st: Optional[LeanStatus], cases: List[Dict[str, Any]], res: Result, label: str) -> None:
+    tw = twin()
+    chunk = 300
+    chunks = [cases[i:i + chunk] for i in range(0, len(cases), chunk)]
+    outs = _pmap(method_batch, [(c,) for c in chunks], 600.0)
+    obs_all: List[Any] = []
+    for c, (status, val) in zip(chunks, outs):
+        if status != "ok":
+            raise common.Infra(f"method batch did not finish: {status} {str(val)[:300]}")
+        obs_all += val
+    model: Optional[List[Any]] = None
+    if st is not None and st.driver_ok:
+        model = common.run_driver(ctx.prop, [_method_line(c) for c in cases], chunk=50000)
+    bad = 0
+    for i, (case, obs) in enumerate(zip(cases, obs_all)):
+        names = [n for n, _ in case["vars"]]
+        inp = {"level": "method", "snake": case["snake"], "kind": case["kind"], "vars": case["vars"]}
+        res.seen(["method", case["snake"], case["kind"], case["vars"]], nontrivial=True)
+        res.count(f"methods:{label}:{case['kind']}")
+        if "observer" in obs:
+            if bad < 15:
+                bad += 1
+                res.mismatches.append(Mismatch("method", inp, f"observer: {obs['observer']}", "an emitted method"))
+            continue
+        ttrig = tw.method_triggers(case["snake"], METHOD_RET, names)
+        tscope = (all(tw.scope_single_trigger("variable", case["snake"], n) is None for n in names)
+                  and all(tw.scope_pair_trigger("variable", case["snake"], a, b) is None for a, b in itertools.combinations(names, 2)))
+        if model is not None and "raised" not in obs:
+            m = model[i]
+            oc = obs["outcome"]
+            got = {"params": obs["params"], "kwarg": obs["kwarg"], "compiles": obs["compiles"],
+                   "outcome": {"err": oc["err"]} if "err" in oc else oc, "trig": ttrig, "scope_supported": tscope}
+            mo = m["outcome"]
+            lq, lv, lr, ld = m["locals"]
+            want = {"params": m["params"], "kwarg": "kwargs", "compiles": m["compiles"],
+                    "outcome": {"err": mo["err"]} if "err" in mo else mo, "trig": m["trig"], "scope_supported": m["scope_supported"]}
+            got["locals"] = obs["locals"]
+            want["locals"] = {"q": lq, "v": lv, "d": ld} if case["kind"] == "subscription" else {"q": lq, "v": lv, "r": lr, "d": ld}
+            if got != want and bad < 15:
+                bad += 1
+                diff = [k for k in got if got[k] != want[k]]
+                res.mismatches.append(Mismatch("method:" + ",".join(diff), inp, {k: got[k] for k in diff}, {k: want[k] for k in diff}))
+        elif model is not None and "raised" in obs and bad < 15:
+            bad += 1
+            res.mismatches.append(Mismatch("method:refusal", inp, obs, "the model has no refusal in add_method"))
+        v = method_verdict(case, obs)
+        supported = tscope and not any(ttrig)
+        if v is None:
+            res.count("method-oracle:lawful")
+            if not supported and "raised" not in obs and bad < 15:
+                bad += 1
+                res.mismatches.append(Mismatch("method-trigger-too-wide", inp, "the real method is lawful",
+                                               {"trig": ttrig, "scope_supported": tscope}))
+        else:
+            sig, detail = v
+            region = tw.method_region(case["snake"], METHOD_RET, names, sig)
+            res.count(f"inside:{region}" if region else "method-oracle:unknown-failure")
+            _fail(res, sig, region, inp, f"method for {case['kind']} operation with variables {case['vars']} (snake={case['snake']}): {detail}")
+    if cases and label in ("exhaustive", "search"):
+        res.sample({"method_case": cases[min(len(cases) - 1, 7)], "impl": {k: v for k, v in obs_all[min(len(cases) - 1, 7)].items() if k != "src"}})
+
+
+# --------------------------------------------------------------------------------------------
+# K: the scope of a result class fed by several selection sources
+# --------------------------------------------------------------------------------------------
+
+CLASS_SCHEMA = """
+interface Node { id: ID! name: String avatar(size: Int): String }
+type User implements Node { id: ID! name: String avatar(size: Int): String email: String nick: String }
+type Bot implements Node { id: ID! name: String avatar(size: Int): String vendor: String }
+union Actor = User | Bot
+type Query { user: User node: Node actor: Actor }
+"""
+CLASS_ENV = {"objects": [["User", ["Node"]], ["Bot", ["Node"]], ["Query", []]],
+             "abstracts": [["Node", ["User", "Bot"]], ["Actor", ["User", "Bot"]]], "unions": ["Actor"]}
+# response key -> (schema field, arguments); ONE binding per key, so every document is valid (fields in a set can merge)
+CLASS_KEYS: Dict[str, Tuple[str, str]] = {
+    "id": ("id", ""), "name": ("name", ""), "email": ("email", ""), "nick": ("nick", ""), "avatar": ("avatar", ""),
+    "small": ("avatar", "(size: 32)"), "large": ("avatar", "(size: 256)"), "tiny": ("avatar", "(size: 8)"),
+    "userName": ("name", ""), "user_name": ("nick", ""), "fooBar": ("email", ""), "foo_bar": ("nick", ""),
+    "FooBar": ("name", ""), "_x": ("email", ""), "x": ("nick", ""), "copy": ("name", ""), "copy_": ("email", ""),
+    "label": ("name", ""), "title": ("name", ""), "mail": ("email", ""), "mail2": ("email", ""),
+}
+NODE_FIELDS = {"id", "name", "avatar"}
+CLASS_PLAIN = ["id", "name", "email", "nick", "avatar", "small", "large", "tiny", "label", "title", "mail", "mail2"]
+CLASS_RISKY = ["userName", "user_name", "fooBar", "foo_bar", "FooBar", "_x", "x", "copy", "copy_"]
+
+
+def _keys_for(vctx: str, risky: bool) -> List[str]:
+    ks = CLASS_PLAIN + (CLASS_RISKY if risky else [])
+    return [k for k in ks if vctx == "User" or CLASS_KEYS[k][0] in NODE_FIELDS]
+
+
+def gen_sels(rng: Any, vctx: str, root: str, depth: int, risky: bool, counter: List[int]) -> List[Any]:
+    """a selection list that is valid GraphQL inside a selection on `vctx` and stays inside the region
+    where `_resolve_selection_set`'s type tests agree with GraphQL for runtime type User (resolution root `root`)"""
+    out: List[Any] = []
+    for _ in range(rng.randint(1, 4 if depth else 3)):
+        r = rng.random()
+        if depth == 0 or r < 0.55:
+            k = rng.choice(_keys_for(vctx, risky))
+            f = CLASS_KEYS[k][0]
+            out.append({"f": [None if k == f and not CLASS_KEYS[k][1] else k, f]})
+        elif r < 0.78:
+            cond = rng.choice(["User", "Node"]) if root == "User" else "Node"
+            out.append({"i": [cond, gen_sels(rng, cond, cond, depth - 1, risky, counter)]})
+        else:
+            cond = rng.choice(["User", "User", "Node"]) if root == "User" else "Node"
+            counter[0] += 1
+            out.append({"s": [f"frag{counter[0]}", cond, gen_sels(rng, cond, root, depth - 1, risky, counter)]})
+    return out
+
+
+def seeded_shapes() -> List[List[Any]]:
+    """the same schema field under two response keys, the second one behind a fragment boundary"""
+    f = lambda k: {"f": [None if k == CLASS_KEYS[k][0] and not CLASS_KEYS[k][1] else k, CLASS_KEYS[k][0]]}  # noqa: E731
+    return [
+        [f("small"), {"i": ["User", [f("large")]]}],
+        [f("small"), {"i": ["Node", [f("large"), f("tiny")]]}],
+        [f("name"), {"s": ["fragA", "Node", [f("label"), f("title")]]}],
+        [f("mail"), {"s": ["fragB", "User", [{"i": ["User", [f("mail2"), f("email")]]}]]}],
+        [f("avatar"), {"s": ["fragC", "User", [f("small")]]}, {"i": ["User", [f("large"), f("avatar")]]}],
+        [{"i": ["User", [f("label")]]}, {"i": ["Node", [f("title"), f("name")]]}, f("copy")],
+        [f("fooBar"), {"i": ["User", [f("foo_bar")]]}],
+        [f("id"), {"s": ["fragD", "Node", [f("id"), {"i": ["User", [f("mail"), f("mail2")]]}]]}],
+    ]
+
+
+def render_sels(sels: List[Any], frags: Dict[str, str]) -> str:
+    parts = []
+    for s in sels:
+        if "f" in s:
+            alias, name = s["f"]
+            key = alias or name
+            parts.append((f"{key}: " if alias else "") + name + CLASS_KEYS[key][1])
+        elif "i" in s:
+            parts.append(f"... on {s['i'][0]} {{ {render_sels(s['i'][1], frags)} }}")
+        else:
+            fr, cond, sub = s["s"]
+            frags[fr] = f"fragment {fr} on {cond} {{ {render_sels(sub, frags)} }}"
+            parts.append(f"...{fr}")
+    return " ".join(parts)
+
+
+def class_doc(sels: List[Any]) -> str:
+    frags: Dict[str, str] = {}
+    q = f"query Q {{ user {{ {render_sels(sels, frags)} }} }}"
+    return q + "".join("\n" + frags[k] for k in sorted(frags))
+
+
+def collected_keys(sels: List[Any]) -> List[str]:
+    """GraphQL CollectFields for an object of runtime type User (every type condition used here applies to it)"""
+    out: List[str] = []
+    for s in sels:
+        if "f" in s:
+            out.append(s["f"][0] or s["f"][1])
+        elif "i" in s:
+            out += collected_keys(s["i"][1])
+        else:
+            out += collected_keys(s["s"][2])
+    return out
+
+
+def observe_class(snake: bool, sels: List[Any]) -> Dict[str, Any]:
+    """CHILD: the class the real ResultTypesGenerator emits for the `user` position"""
+    try:
+        from graphql import build_ast_schema, parse
+
+        from ariadne_codegen.client_generators.result_types import ResultTypesGenerator
+
+        schema = build_ast_schema(parse(CLASS_SCHEMA))
+        doc = parse(class_doc(sels))
+        op = doc.definitions[0]
+        frags = {d.name.value: d for d in doc.definitions[1:]}
+        try:
+            g = ResultTypesGenerator(schema=schema, operation_definition=op, enums_module_name="enums",
+                                     fragments_definitions=frags, convert_to_snake_case=snake)
+            classes = g.get_classes()
+        except (AttributeError, ImportError, TypeError):
+            raise
+        except Exception as e:  # noqa: BLE001
+            return {"raised": type(e).__name__, "msg": str(e)[:200]}
+        cls = [c for c in classes if c.name == "QUser"][0]
+        rows = [[py, al, al if al is not None else py] for py, al in _field_rows(cls)]
+        bases = sorted(b for b in (ast.unparse(x) for x in cls.bases) if b != "BaseModel")
+        return {"rows": rows, "bases": bases}
+    except (AttributeError, ImportError, TypeError, IndexError, KeyError) as e:
+        return {"observer": f"{type(e).__name__}: {e}"[:300]}
+
+
+def class_batch(cases: List[Tuple[bool, List[Any]]]) -> List[Dict[str, Any]]:
+    return [observe_class(sn, sels) for sn, sels in cases]
+
+
+@engine.with_scratch
+def class_package_case(root: Any, snake: bool, sels: List[Any]) -> Dict[str, Any]:
+    """CHILD: whole package; the model of the `user` position must keep a distinct value under every
+    response key GraphQL collects for a User"""
+    import warnings as _w
+
+    keys: List[str] = []
+    for k in collected_keys(sels):
+        if k not in keys:
+            keys.append(k)
+    try:
+        gen = engine.generate_client(root, CLASS_SCHEMA, class_doc(sels), {"convert_to_snake_case": snake})
+    except BaseException as e:  # noqa: BLE001 - "generation fails with an error"
+        return {"verdict": "generation-error", "cls": type(e).__name__, "msg": str(e)[:200]}
+    try:
+        with _w.catch_warnings():
+            _w.simplefilter("ignore")
+            pkg = engine.import_package(gen)
+            model = pkg.QUser
+    except BaseException as e:  # noqa: BLE001
+        return {"verdict": "broken-output", "cls": type(e).__name__, "msg": str(e)[:200]}
+    try:
+        wires = {(f.alias or k): k for k, f in model.model_fields.items()}
+        missing = [k for k in keys if k not in wires]
+        if missing:
+            return {"verdict": "response-key-lost", "missing": missing,
+                    "msg": f"QUser.model_fields = {sorted(model.model_fields)} (aliases {sorted(wires)}); no attribute for the selected response key(s) {missing}"}
+        resp = {k: f"v{i}" for i, k in enumerate(keys)}
+        m = model.model_validate(resp)
+        back = m.model_dump(by_alias=True, exclude_unset=True)
+        vals = {k: getattr(m, wires[k]) for k in keys}
+        if back != resp or vals != resp:
+            lost = [k for k in keys if vals.get(k) != resp[k] or back.get(k) != resp[k]]
+            return {"verdict": "response-key-lost", "missing": lost, "msg": f"validate/dump of {resp} gives {back}; attributes {vals}"}
+    except BaseException as e:  # noqa: BLE001
+        return {"verdict": "unusable", "cls": type(e).__name__, "msg": str(e)[:300]}
+    return {"verdict": "ok", "keys": keys}
+
+
+def _class_line(snake: bool, sels: List[Any]) -> Dict[str, Any]:
+    return {"op": "class", "snake": snake, "root": "User", "T": "User", "addT": False, "env": CLASS_ENV, "sels": sels}
+
+
+def class_cases(rng: Any, count: int) -> List[Tuple[bool, List[Any]]]:
+    out: List[Tuple[bool, List[Any]]] = [(sn, sh) for sh in seeded_shapes() for sn in (True, False)]
+    while len(out) < count:
+        counter = [0]
+        risky = rng.random() < 0.25
+        out.append((rng.random() < 0.5, gen_sels(rng, "User", "User", rng.choice([1, 2, 2, 3]), risky, counter)))
+    return out
+
+
+def _class_region(tw: Twin, snake: bool, keys: List[str], missing: Sequence[str]) -> Optional[str]:
+    """the merge / single-name region a lost response key lies in (None: it was lost for another reason)"""
+    for k in missing:
+        t1 = tw.scope_single_trigger("resultField", snake, k)
+        if t1:
+            return t1
+        for o in keys:
+            if o != k:
+                t2 = tw.scope_pair_trigger("resultField", snake, k, o)
+                if t2:
+                    return t2
+    return None
+
+
+def judge_classes(ctx: Ctx, st: Optional[LeanStatus], cases: List[Tuple[bool, List[Any]]], res: Result, label: str) -> None:
+    """correspondence: rows / bases of the real class vs the model; what the class and the fragments it
+    inherits from carry vs GraphQL's collected keys (python-side CollectFields vs the model's)"""
+    chunk = 40
+    chunks = [cases[i:i + chunk] for i in range(0, len(cases), chunk)]
+    outs = _pmap(class_batch, [(c,) for c in chunks], 600.0)
+    obs_all: List[Any] = []
+    for c, (status, val) in zip(chunks, outs):
+        if status != "ok":
+            raise common.Infra(f"class batch did not finish: {status} {str(val)[:300]}")
+        obs_all += val
+    model: Optional[List[Any]] = None
+    if st is not None and st.driver_ok:
+        model = common.run_driver(ctx.prop, [_class_line(sn, sels) for sn, sels in cases])
+    bad = 0
+    for i, ((snake, sels), obs) in enumerate(zip(cases, obs_all)):
+        inp = {"level": "class", "snake": snake, "sels": sels}
+        res.seen(["class", snake, sels], nontrivial=True)
+        res.count(f"classes:{label}")
+        if "observer" in obs or "raised" in obs:
+            if bad < 10:
+                bad += 1
+                res.mismatches.append(Mismatch("class", inp, json.dumps(obs)[:300], "a class for the user position"))
+            continue
+        if len(obs["bases"]):
+            res.count("classes:with-base-fragments")
+        if model is None:
+            continue
+        m = model[i]
+        if not m["noDrop"] and bad < 10:
+            bad += 1
+            res.mismatches.append(Mismatch("class-generator-left-the-noDrop-region", inp, class_doc(sels), m))
+        mc = m["class"]
+        # rows as a SET: order and repeated identical declarations of one response key do not matter to C18
+        uniq = lambda rows: sorted({json.dumps(r) for r in (rows or [])})  # noqa: E731
+        want = {"rows": uniq(mc.get("rows")), "bases": sorted(mc.get("bases", [])), "collect": m["collect"], "effective": m["effective"]}
+        got = {"rows": uniq(obs["rows"]), "bases": obs["bases"], "collect": collected_keys(sels), "effective": collected_keys(sels)}
+        if got != want and bad < 10:
+            bad += 1
+            diff = [k for k in got if got[k] != want[k]]
+            res.mismatches.append(Mismatch("class:" + ",".join(diff), inp, {k: got[k] for k in diff}, {k: want[k] for k in diff}))
+    if cases:
+        res.sample({"class_doc": class_doc(cases[0][1]), "impl": obs_all[0]})
+
+
+def judge_class_packages(ctx: Ctx, cases: List[Tuple[bool, List[Any]]], res: Result, label: str) -> None:
+    tw = twin()
+    outs = _pmap(class_package_case, list(cases), 240.0)
+    for (snake, sels), (status, val) in zip(cases, outs):
+        inp = {"level": "class", "snake": snake, "sels": sels}
+        res.seen(["class-package", snake, sels], nontrivial=True)
+        if status != "ok":
+            raise common.Infra(f"class package case {inp} did not finish: {status} {str(val)[:300]}")
+        v = val["verdict"]
+        res.count(f"class-package:{label}:{v}")
+        if v in ("ok", "generation-error"):
+            continue
+        keys = list(dict.fromkeys(collected_keys(sels)))
+        if v == "response-key-lost":
+            region = _class_region(tw, snake, keys, val.get("missing", []))
+            sig = "silently-merged" if region else "response-key-lost"
+        else:
+            region = _class_region(tw, snake, keys, keys)
+            sig = "broken-output" if v == "broken-output" else "silently-merged"
+        if region:
+            res.count(f"inside:{region}")
+        _fail(res, sig, region, inp, f"{class_doc(sels)!r} snake={snake}: {v}: {val.get('cls', '')} {val.get('msg', '')}")
+
+
+# --------------------------------------------------------------------------------------------
+# S: process_name is history-free - RUNS of calls with different flags in ONE fresh interpreter
+# --------------------------------------------------------------------------------------------
+
+_FRESH_SCRIPT = r"""
+import json, sys
+sys.path.insert(0, sys.argv[1])
+from ariadne_codegen.utils import process_name
+calls = json.load(sys.stdin)
+out = []
+for k, n in calls:
+    try:
+        out.append(process_name(n, convert_to_snake_case=bool(k & 4), trim_leading_underscore=bool(k & 2),
+                                handle_pydantic_resrved_field_names=bool(k & 1)))
+    except Exception as e:
+        out.append({"raised": type(e).__name__})
+json.dump(out, sys.stdout)
+"""
+
+
+def fresh_run(calls: List[List[Any]]) -> List[Any]:
+    """the calls [[flag combination k, name], ...] made in order by ONE new interpreter that has done
+    nothing else with /repo (not a fork of this process: nothing any earlier call left behind is inherited)"""
+    import subprocess
+    import sys as _sys
+
+    p = subprocess.run([_sys.executable, "-c", _FRESH_SCRIPT, str(common.REPO)], input=json.dumps(calls), capture_output=True,
+                       text=True, timeout=600, cwd="/")
+    if p.returncode != 0:
+        if any(x in p.stderr for x in ("AttributeError", "ImportError", "TypeError")):
+            return [{"observer": p.stderr.strip().splitlines()[-1][:200]}] * len(calls)
+        raise common.Infra(f"fresh interpreter failed: {p.stderr[-400:]}")
+    return json.loads(p.stdout)
+
+
+def fresh_runs(many: List[List[List[Any]]]) -> List[List[Any]]:
+    from concurrent.futures import ThreadPoolExecutor
+    import os as _os
+
+    with ThreadPoolExecutor(max_workers=max(1, min(6, int(_os.environ.get("VERIF_PROCS", "14"))))) as ex:
+        return list(ex.map(fresh_run, many))
+
+
+def sequence_names(rng: Any, specials: Sequence[str], count: int) -> List[str]:
+    fixed = ["json", "copy", "schema", "class", "_class", "_copy", "__rank", "_x", "__x", "x", "fooBar", "foo_bar", "_", "__", "_1",
+             "model_dump", "modelDump", "query", "_query", "self", "None", "_None", "id", "Id", "ID"]
+    base = [n for n in words_upto(ALPHABET, 3) if GNAME_RE.match(n)]
+    sp = [n for n in specials if GNAME_RE.match(n)]
+    picked = rng.sample(sp, min(len(sp), count)) + rng.sample(base, min(len(base), count))
+    out: List[str] = []
+    for n in fixed + picked:
+        if n not in out:
+            out.append(n)
+    return out
+
+
+def _history_failure(res: Result, k: int, n: str, got: Any, alone: Any, prefix: List[List[Any]]) -> None:
+    """report the shortest run found on which the call answers differently than alone"""
+    same = [c for c in prefix if c[1] == n]
+    cands = [[c, [k, n]] for c in same[:3]] + ([same + [[k, n]]] if len(same) > 1 else [])
+    for cand in cands:
+        if fresh_run(cand)[-1] != alone:
+            run_ = cand
+            break
+    else:
+        run_ = (prefix + [[k, n]])[-400:]
+    cfg = CFGS[k]
+    _fail(res, "history-dependent", None, {"level": "calls", "calls": run_},
+          f"process_name({n!r}, snake={cfg[0]}, trim={cfg[1]}, reserved={cfg[2]}) returns {got!r} after {len(run_) - 1} earlier call(s) "
+          f"{run_[:-1][:4]} in the same process, but {alone!r} when it is the only call")
+
+
+def judge_sequences(ctx: Ctx, st: Optional[LeanStatus], res: Result, names: List[str], runs: int, label: str) -> None:
+    """reference: eight fresh interpreters, each making every call under ONE flag combination (so no call is preceded by a
+    call with other flags); runs: fresh interpreters making all (flags, name) calls interleaved in a seeded random order.
+    Oracle (no Lean): every answer inside a run equals the reference answer.  Correspondence: runs vs the driver's `calls`."""
+    rng = ctx.sub_rng("sequences:" + label)
+    ref_calls = [[[k, n] for n in names] for k in range(8)]
+    seqs: List[List[List[Any]]] = []
+    for r in range(runs):
+        calls = [[k, n] for n in names for k in range(8)]
+        if r == 0:
+            pass  # per name: the flag combinations in index order
+        elif r == 1:
+            calls = [[k, n] for n in names for k in reversed(range(8))]
+        else:
+            rng.shuffle(calls)
+        seqs.append(calls)
+    outs = fresh_runs(ref_calls + seqs)
+    ref = {(k, n): o for k in range(8) for n, o in zip(names, outs[k])}
+    model: Optional[List[Any]] = None
+    if st is not None and st.driver_ok:
+        model = common.run_driver(ctx.prop, [{"op": "calls", "calls": c} for c in seqs])
+    bad = 0
+    reported = 0
+    for si, (calls, out) in enumerate(zip(seqs, outs[8:])):
+        res.count(f"runs:{label}")
+        for i, ((k, n), o) in enumerate(zip(calls, out)):
+            res.seen(["call-in-run", si, i, k, n], nontrivial=i > 0)
+            if isinstance(o, dict) and "observer" in o:
+                if bad < 5:
+                    bad += 1
+                    res.mismatches.append(Mismatch("calls", {"level": "calls", "calls": calls[: i + 1][-5:]}, f"observer: {o['observer']}", "a name"))
+                break
+            if model is not None and o != model[si][i] and bad < 10:
+                bad += 1
+                res.mismatches.append(Mismatch("calls", {"level": "calls", "calls": [c for c in calls[:i] if c[1] == n] + [[k, n]]}, o, model[si][i]))
+            if o != ref[(k, n)] and reported < 6:
+                reported += 1
+                _history_failure(res, k, n, o, ref[(k, n)], calls[:i])
+    res.extra["run_names"] = len(names)
+    res.extra["run_length"] = len(names) * 8
+
+
+# --------------------------------------------------------------------------------------------
 # findings: witnesses replayed on the real code in every run
 # --------------------------------------------------------------------------------------------
 
@@ -939,6 +1683,24 @@ def replay_witness(ctx: Ctx, w: Dict[str, Any]) -> Tuple[bool, str]:
         if status != "ok":
             raise common.Infra(f"witness {w} did not finish: {status}")
         return val["verdict"] not in ("ok", "generation-error"), f"{val['verdict']}: {val.get('cls', '')} {val.get('msg', '')}"[:300]
+    if level == "method":
+        case = {"snake": w["snake"], "kind": w["kind"], "vars": w["vars"]}
+        status, val = engine.forked(observe_method, case, timeout=120.0)
+        if status != "ok":
+            raise common.Infra(f"witness {w} did not finish: {status} {str(val)[:200]}")
+        if "observer" in val:
+            return True, f"observer: {val['observer']}"
+        v = method_verdict(case, val)
+        return v is not None, (f"{v[0]}: {v[1]}" if v else "lawful")[:300]
+    if level == "calls":
+        got = fresh_run(w["calls"])
+        alone = [fresh_run([c])[0] for c in w["calls"]]
+        return got != alone, f"in one run: {got[-4:]}, each call alone: {alone[-4:]}"
+    if level == "class":
+        status, val = engine.forked(class_package_case, w["snake"], w["sels"], timeout=240.0)
+        if status != "ok":
+            raise common.Infra(f"witness {w} did not finish: {status} {str(val)[:200]}")
+        return val["verdict"] not in ("ok", "generation-error"), f"{val['verdict']}: {val.get('cls', '')} {val.get('msg', '')}"[:300]
     raise common.Infra(f"unknown witness level {level}")
 
 
@@ -954,9 +1716,12 @@ def replay_findings(ctx: Ctx, res: Result) -> None:
             res.count(f"witness:{f['id']}:{'fails' if fails else 'passes'}")
             if fails and f.get("status") == "fixed":
                 res.failures.append(Failure("fixed-finding-returned", None, w, f"{f['id']}: {detail}"))
-            elif fails and w.get("level") == "package":
+            elif fails and w.get("level") in ("package", "class"):
                 sig = "broken-output" if detail.startswith("broken-output") else "silently-merged"
                 res.failures.append(Failure(sig, f.get("trigger"), w, f"{f['id']}: {detail}"))
+            elif fails and w.get("level") == "method":
+                sig = detail.split(":", 1)[0]
+                res.failures.append(Failure(sig if sig in METHOD_SIGS else "method-unusable", f.get("trigger"), w, f"{f['id']}: {detail}"))
         res.witness_status[f["id"]] = "reproduces" if any(still) else "gone"
     # minimised past failures / extra corpus files
     cdir = common.CORPUS / ctx.prop
@@ -1003,10 +1768,19 @@ def run(ctx: Ctx, st: Optional[LeanStatus]) -> Result:
         "compared with the model), every keyword/soft keyword/pydantic attribute with affixes, seeded random long names; "
         "pairs = all groups of names with equal real output (sampled inside large groups) + random pairs. "
         "L2: batches of names through the real generators of the five scopes. L3: whole packages for pairs per scope. "
+        "S: runs of process_name calls (all 8 flag combinations x a few hundred names, interleaved in index / reversed / seeded random order) in "
+        "fresh interpreters vs the same calls made with one flag combination per interpreter (a call counts as non-trivial when it is not the first of its run). "
+        "M: every variable list of length <= 2 over the method pool (see method_pool) x defaults x snake x kind, emitted by the real "
+        "ArgumentsGenerator/ClientGenerator.add_method, compiled and called; random lists of length 3-4. "
+        "K: generated selection trees (fields, aliases of one schema field, inline fragments, unpacked / base-class spreads) through the "
+        "real ResultTypesGenerator + whole packages for a sample. "
         "Every case is non-trivial except random pairs whose outputs differ; distinct = distinct (level, input)" % bound
     )
     replay_findings(ctx, res)
     ctx.log("finding witnesses replayed")
+    snames = sequence_names(ctx.sub_rng("sequence-names"), special_names(), budget3(ctx, 150, 400, 1200))
+    judge_sequences(ctx, st, res, snames, budget3(ctx, 4, 8, 16), "runs")
+    ctx.log(f"S runs done ({len(snames)} names x 8 flag combinations per run)")
     groups: List[Dict[str, List[str]]] = [dict() for _ in CFGS]
     judge_names(ctx, st, exhaustive, res, "exhaustive", groups)
     ctx.log(f"L1 exhaustive: {len(exhaustive)} names")
@@ -1025,15 +1799,29 @@ def run(ctx: Ctx, st: Optional[LeanStatus]) -> Result:
     verdicts = judge_packages(ctx, random_package_cases(ctx.sub_rng("packages"), pool, budget3(ctx, 40, 120, 400)), res, "random")
     res.extra["package_samples"] = verdicts[:6]
     ctx.log("L3 packages done")
+    full_pool = ctx.tier == "thorough"
+    mcases = method_cases(ctx.sub_rng("methods"), full_pool, budget3(ctx, 500, 3000, 4000))
+    res.extra["method_pool"] = method_pool(full_pool)
+    res.extra["method_lists_exhaustive"] = "every ordered list of 0, 1 and 2 distinct pool names x default patterns x snake on/off x sync/async/subscription"
+    judge_methods(ctx, st, mcases, res, "exhaustive")
+    ctx.log(f"M methods done ({len(mcases)} emitted, compiled and called)")
+    ccases = class_cases(ctx.sub_rng("classes"), budget3(ctx, 400, 1200, 2500))
+    judge_classes(ctx, st, ccases, res, "generated")
+    pk = budget3(ctx, 40, 120, 200)
+    judge_class_packages(ctx, ccases[:16] + ccases[16:][:: max(1, (len(ccases) - 16) // max(1, pk - 16))][: pk - 16], res, "generated")
+    ctx.log(f"K classes done ({len(ccases)} selection trees)")
     res.extra.pop("_failure_keys", None)
     res.oracle_only += [
         "re.findall semantics: the tokenizer is tied to the real regex by exhaustive comparison, not derived from a regex semantics in Lean",
-        "pydantic's treatment of duplicate annotations / Enum's duplicate-member check / CPython's duplicate-parameter check are observed through real packages (L3), not modelled",
+        "pydantic's treatment of duplicate annotations / Enum's duplicate-member check are observed through real packages (L3, K), not modelled",
+        "CPython's duplicate-parameter check and name binding (parameters, rebinding by assignment, shadowing of module globals) are an explicit environment semantics in the method model, validated by compiling and calling every emitted method (M), not derived from a CPython semantics",
+        "GraphQL's CollectFields (directives aside) in the class model is validated against a python-side reading of the generated documents and by whole packages (K); which classes an abstract position gets is C01's model",
         "names that are not word strings (Unicode) are outside the domain: GraphQL names are ASCII",
     ]
     res.assumptions += [
         "keyword.kwlist and dir(pydantic.BaseModel) of the interpreter running the generator (regenerated into Tables.lean on every run)",
         "the plugin hook is the identity unless a plugin overrides process_name (hook position checked with test plugins)",
+        "method scope: no custom scalar with a serialize function (the dict value is then serialize(<name>): C03); variables are Int / Int!; the caller passes non-callable values",
     ]
     return res
 
@@ -1041,6 +1829,7 @@ def run(ctx: Ctx, st: Optional[LeanStatus]) -> Result:
 def search(ctx: Ctx) -> Result:
     """after a broken proof / correspondence: judge the real code only, with the thorough budget"""
     res = Result()
+    judge_sequences(ctx, None, res, sequence_names(ctx.sub_rng("search-sequence-names"), special_names(), 600), 8, "search")
     groups: List[Dict[str, List[str]]] = [dict() for _ in CFGS]
     exhaustive = list(words_upto(ALPHABET, 6))
     judge_names(ctx, None, exhaustive, res, "search-exhaustive", groups)
@@ -1052,6 +1841,9 @@ def search(ctx: Ctx) -> Result:
     judge_groups(ctx, None, groups, res, ctx.sub_rng("search-pairs"), per_group=6, non_colliding=1000, all_names=pool)
     judge_scopes(ctx, None, scope_batches(ctx.sub_rng("search-scopes"), pool, batch=120, count=300), res)
     judge_packages(ctx, random_package_cases(ctx.sub_rng("search-packages"), pool, 150), res, "search")
+    judge_methods(ctx, None, method_cases(ctx.sub_rng("search-methods"), True, 6000), res, "search")
+    ccases = class_cases(ctx.sub_rng("search-classes"), 200)
+    judge_class_packages(ctx, ccases, res, "search")
     res.extra.pop("_failure_keys", None)
     return res
 
@@ -1073,6 +1865,14 @@ def replay(ctx: Ctx, payload: Dict[str, Any]) -> int:
         judge_scopes(ctx, None, [(inp["scope"], inp["snake"], inp["names"])], res)
     elif level == "package":
         judge_packages(ctx, [(inp["scope"], inp["snake"], inp["a"], inp["b"])], res, "replay")
+    elif level == "calls":
+        fails, detail = replay_witness(ctx, inp)
+        print(("history-dependent: " if fails else "history-free: ") + detail)
+        return 1 if fails else 0
+    elif level == "method":
+        judge_methods(ctx, None, [{"level": "method", "snake": inp["snake"], "kind": inp["kind"], "vars": inp["vars"]}], res, "replay")
+    elif level == "class":
+        judge_class_packages(ctx, [(inp["snake"], inp["sels"])], res, "replay")
     else:
         print(json.dumps(payload, indent=1)[:3000])
         return 1
